@@ -172,19 +172,17 @@ def run(ctx):
             for r in rows.get("tasks", []):
                 trow.setdefault(r["pid"], []).append(r)
             # the retention predicate itself is `Ret.retentionCheck`, evaluated by the Lean driver on these rows (collected here, judged below)
+            # (kept rows: the processes that ended before this operation — the last task events of an ending may still be on their way
+            # while the operation that ended it is observed)
+            ended_now = {o["pid"] for o in obs if o.get("k") == "pev" and o.get("chan") == "default" and o.get("ev") in ("complete", "error")}
             mon_reqs.append((i, {"cmd": "c17.monitor", "keep": keep, "finished": sorted(finished), "procs": sorted(prow),
-                                 "tasks": [[r["id"], r["pid"]] for r in rows.get("tasks", [])]}))
+                                 "tasks": [[r["id"], r["pid"]] for r in rows.get("tasks", [])],
+                                 "settled": sorted(set(finished) - ended_now),
+                                 "states": [[r["pid"], r["state"] in TERMINAL] for r in rows.get("tasks", [])]}))
             for pid in sc["pids"]:
                 if pid in finished:
                     if keep and pid in prow and prow[pid]["state"] not in TERMINAL:
                         bad = ("kept-process-not-terminal", f"op {i}: kept process row {pid} has state {prow[pid]['state']}")
-                    elif keep and not any(o.get("k") == "pev" and o.get("pid") == pid and o.get("ev") in ("complete", "error") for o in obs):
-                        # … and so are the rows of its tasks (looked at from the operation after the ending on: the last task events of the
-                        # ending itself may still be on their way)
-                        open_rows = sorted((r["id"], r["state"]) for r in trow.get(pid, []) if r["state"] not in TERMINAL)
-                        if open_rows:
-                            how = finished[pid]
-                            bad = (f"kept-task-row-not-terminal|{how}", f"op {i}: process {pid} has ended ({how}) and is kept, its task rows {open_rows[:3]} are not in a terminal state")
                 else:
                     # a live process is never collateral damage of another one's removal
                     started = any(o2.get("k") == "new" and o2.get("pid") == pid for st2 in res["steps"][: res["steps"].index(st) + 1] for o2 in st2["obs"])
@@ -216,6 +214,10 @@ def run(ctx):
                     # the earliest failure of the run wins
                     ntasks = sum(1 for t in rq["tasks"] if t[1] == vd.get("pid"))
                     cand = (vd["why"], f"op {i}: process {vd.get('pid')} (ended {finished.get(vd.get('pid'))}): {'a process row and ' if vd.get('pid') in rq['procs'] else ''}{ntasks} task rows in the store")
+                    if vd["why"] == "kept-task-row-not-terminal":
+                        nopen = sum(1 for t in rq["states"] if t[0] == vd.get("pid") and not t[1])
+                        cand = (f"kept-task-row-not-terminal|{finished.get(vd.get('pid'))}", f"op {i}: process {vd.get('pid')} has ended ({finished.get(vd.get('pid'))}) and is kept, "
+                                f"{nopen} of its task rows are not in a terminal state")
                     if bad is None or i < int(bad[1].split(":")[0].split()[1]):
                         bad = cand
                     break
@@ -229,7 +231,8 @@ def run(ctx):
     ctx.cov["rule"] = ("2-4 interleaved processes of 1-3 models ending by completion, error, abort or skip, rm_model in between (one scenario in ten: models with 45-130 registered start events removed and redeployed), keep_processes on and off, in-memory and SQLite; "
                        "non-trivial = at least two processes finished; distinct by (models, ops, config)")
     ctx.cov["clauses_proved"] = ["removeProc deletes exactly the rows of that pid and no message (all stores)", "removal iff !keep_processes (K1)", "removals commute",
-                                 "actions on a removed process are refused first (admission order)", "rm_model removes exactly its events"]
+                                 "actions on a removed process are refused first (admission order)", "rm_model removes exactly its events",
+                                 "kept rows of a settled process are in terminal states when the Lean check passes (check_implies_kept_rows_terminal)"]
     ctx.cov["clauses_not_proved"] = ["that the back ends' pid query selects exactly the pid's rows (C10 query theorem + differential)"]
 
 
